@@ -23,10 +23,14 @@ repair of finding **D72** (below). This file relates the two:
         `variance_exact_where_no_step_rounds_real` (under the decidable `onePassExactReals` the cell is EXACTLY the textbook
         variance of the exact values), `every_step_is_correctly_rounded` (all that holds in general: each operation is nearest
         on its own rounded operands; the subtraction cancels, so no bound on the distance from the exact variance is claimed —
-        `real_formula_can_go_negative` is the kernel-evaluated witness of why the clamp is there).
+        `real_formula_can_go_negative` is the kernel-evaluated witness of why the clamp is there). HONESTLY: for REAL
+        arguments the cell is the CODE'S FORMULA in REAL arithmetic and nothing more is proved; it can be far from the
+        variance — OPEN finding **D76**, witness `d76_real_variance_far_from_exact` (100000001.0, 100000002.0, 100000003.0
+        show VARIANCE 0.0, exact 2/3).
   (iv)  the CHOICES of the code that the sentence does not fix and the specification mirrors, as kernel-evaluated facts:
         population not sample (`choice_population_not_sample`), PERCENTILE = nearest rank at index `min(⌊p·n⌋, n−1)`
-        (`choice_percentile_nearest_rank`), AVG over INT truncates towards zero (`choice_avg_int_truncates`).
+        (`choice_percentile_nearest_rank`), AVG over INT truncates towards zero (`choice_avg_int_truncates`; AVG over
+        INTERVAL likewise divides the exact total of nanoseconds: `Props/C04Avg.lean`, finding D74 repaired).
 
 Finding **D72** (repaired in /repo; `notes/pending/D72-variance.patch` until committed). Before the repair both branches evaluated
 the one-pass formula in REAL arithmetic, INT sums converted first: over three REAL rows `0.1` the program printed
@@ -341,6 +345,38 @@ theorem d72_repaired_engine :
       shownValue (.stddev (.column "v") true) c = .real F64.zero := by
   obtain ⟨c, hc, hs, _⟩ := Props.C04.aggregate_fold_refines (.stddev (.column "v") true) (List.replicate 7 (.int 1000000007))
     (.real F64.zero) (by decide) d72_repaired_int.1 rfl
+  exact ⟨c, hc, hs⟩
+
+/-! ### finding D76, OPEN: for REAL arguments the cell can be far from the variance (kernel-evaluated witnesses)
+
+For REAL arguments NO accuracy statement is proved: the cell is the code's one-pass formula evaluated in REAL arithmetic
+(`Spec.Agg.realVariance`), equal to the variance only where no step rounds (`variance_exact_where_no_step_rounds_real`). The
+clamp of D72 removes negative results and the NaN, not the cancellation. `harness witness D76` and the `real-variance` stream
+of `./check C04` run the same inputs on the code (class `D76:real-variance-cancellation`, assigned only to exactly these cells). -/
+
+/-- **D76 witness.** Over the three REALs 100000001.0, 100000002.0, 100000003.0 (exactly representable; bit patterns below)
+VARIANCE is `0.0` and STDDEV `0.0` — the exact variance of these three numbers is 2/3 (and over the INT column with the same
+values the cell is the REAL nearest to 2/3, `int_variance_correctly_rounded_when_small`). Over 1000000.1, 1000000.2, 1000000.3
+(the REALs nearest to them) VARIANCE is `0x3f7c000000000000` = 0.0068359375 where the exact variance of the three REALs is
+2213609290391334421 / 332041393326771929088 = 0.0066666…: 2.5 % off. -/
+theorem d76_real_variance_far_from_exact :
+    aggregate (.stddev (.column "r") true) [.real 0x4197d78404000000, .real 0x4197d78408000000, .real 0x4197d7840c000000] = some (.real F64.zero) ∧
+    aggregate (.stddev (.column "r") false) [.real 0x4197d78404000000, .real 0x4197d78408000000, .real 0x4197d7840c000000] = some (.real F64.zero) ∧
+    [0x4197d78404000000, 0x4197d78408000000, 0x4197d7840c000000].map F64.toRat = [100000001, 100000002, 100000003] ∧
+    popVariance [100000001, 100000002, 100000003] = 2 / 3 ∧
+    aggregate (.stddev (.column "v") true) [.int 100000001, .int 100000002, .int 100000003] = some (.real 0x3fe5555555555555) ∧
+    aggregate (.stddev (.column "r") true) [.real 0x412e848033333333, .real 0x412e848066666666, .real 0x412e84809999999a] = some (.real 0x3f7c000000000000) ∧
+    F64.toRat 0x3f7c000000000000 = 7 / 1024 ∧
+    popVariance ([0x412e848033333333, 0x412e848066666666, 0x412e84809999999a].map F64.toRat) = 2213609290391334421 / 332041393326771929088 :=
+  ⟨real_of_bits (by decide +kernel), real_of_bits (by decide +kernel), by decide +kernel, by decide +kernel,
+   real_of_bits (by decide +kernel), real_of_bits (by decide +kernel), by decide +kernel, by decide +kernel⟩
+
+/-- the engine shows exactly that cell: three `update_aggregate` steps over 100000001.0, 100000002.0, 100000003.0 end with `0.0` -/
+theorem d76_engine :
+    ∃ c, foldV (.stddev (.column "r") true) [.real 0x4197d78404000000, .real 0x4197d78408000000, .real 0x4197d7840c000000] {} = .ok c ∧
+      shownValue (.stddev (.column "r") true) c = .real F64.zero := by
+  obtain ⟨c, hc, hs, _⟩ := Props.C04.aggregate_fold_refines (.stddev (.column "r") true)
+    [.real 0x4197d78404000000, .real 0x4197d78408000000, .real 0x4197d7840c000000] (.real F64.zero) (by decide) d76_real_variance_far_from_exact.1 rfl
   exact ⟨c, hc, hs⟩
 
 /-! ### (iv) the choices of the code that the sentence does not fix (mirrored by the specification) -/
